@@ -18,6 +18,7 @@ import (
 	"time"
 
 	"istio.io/istio/pkg/file"
+	"istio.io/istio/pkg/security"
 	nacache "istio.io/istio/security/pkg/nodeagent/cache"
 	"verifharness/internal/wire"
 )
@@ -38,6 +39,8 @@ import (
 
 type fileSUT struct {
 	*sut
+	kube       bool // kubelet-style volume: files are symlinks through ..data, an update swaps ..data atomically
+	gen        int  // kube: number of the current ..ts<gen> directory
 	dir        string
 	wv         int         // version of the key/cert pair on disk
 	rootLetter byte        // root on disk
@@ -70,24 +73,44 @@ func (f *fileSUT) newPair() (keyPEM, certPEM []byte) {
 	return
 }
 
-var fileCreate sync.Mutex
+// publish (kube): write a complete new ..ts<n> directory and swap the ..data symlink onto it, as kubelet's
+// AtomicWriter does (the last step is a rename of ..data_tmp over ..data: MOVED_TO on ..data).
+func (f *fileSUT) publish(key, cert []byte) {
+	f.gen++
+	ts := filepath.Join(f.dir, fmt.Sprintf("..ts%d", f.gen))
+	must(os.Mkdir(ts, 0o755))
+	must(os.WriteFile(filepath.Join(ts, "key.pem"), key, 0o644))
+	must(os.WriteFile(filepath.Join(ts, "cert-chain.pem"), cert, 0o644))
+	must(os.WriteFile(filepath.Join(ts, "root-cert.pem"), []byte(rootByName(f.rootLetter).pem), 0o644))
+	tmp := filepath.Join(f.dir, "..data_tmp")
+	_ = os.Remove(tmp)
+	must(os.Symlink(fmt.Sprintf("..ts%d", f.gen), tmp))
+	must(os.Rename(tmp, filepath.Join(f.dir, "..data")))
+	if f.gen > 1 {
+		_ = os.RemoveAll(filepath.Join(f.dir, fmt.Sprintf("..ts%d", f.gen-1)))
+	}
+}
 
-func newFileSUT() *fileSUT {
+func newFileSUT(kube bool) *fileSUT {
 	initRoots()
 	dir, err := os.MkdirTemp("", "c18file")
 	must(err)
-	f := &fileSUT{dir: dir, rootLetter: 'A'}
+	f := &fileSUT{dir: dir, rootLetter: 'A', kube: kube}
 	cert, key, root := f.paths()
 	k, c := f.newPair()
-	must(os.WriteFile(key, k, 0o644))
-	must(os.WriteFile(cert, c, 0o644))
-	must(os.WriteFile(root, []byte(rootByName('A').pem), 0o644))
-	fileCreate.Lock()
-	filePaths = [3]string{cert, key, root}
+	if kube {
+		f.publish(k, c)
+		for _, n := range []string{"key.pem", "cert-chain.pem", "root-cert.pem"} {
+			must(os.Symlink(filepath.Join("..data", n), filepath.Join(dir, n)))
+		}
+	} else {
+		must(os.WriteFile(key, k, 0o644))
+		must(os.WriteFile(cert, c, 0o644))
+		must(os.WriteFile(root, []byte(rootByName('A').pem), 0o644))
+	}
 	ca := &fakeCA{}
-	f.sut = newSUTWith(0.5, 0, ca, ca)
-	filePaths = [3]string{}
-	fileCreate.Unlock()
+	// ratio / jitter are irrelevant for file-mounted certificates (nothing is scheduled): vary them
+	f.sut = newSUTOpts([]float64{0.5, 0.25, 1, 0}[len(dir)%4], []float64{0, 0.5}[len(dir)%2], ca, ca, sutOpts{files: [3]string{cert, key, root}})
 	return f
 }
 
@@ -130,6 +153,12 @@ func (f *fileSUT) op(t []string) string {
 			return "bad-op"
 		}
 		name, ok := resName(t[1])
+		switch t[1] {
+		case "fc": // file-cert:<cert>~<key> (DestinationRule / Gateway file references)
+			name, ok = security.SdsCertificateConfig{CertificatePath: cert, PrivateKeyPath: key}.GetResourceName(), true
+		case "fr": // file-root:<root>
+			name, ok = security.SdsCertificateConfig{CaCertificatePath: root}.GetRootResourceName(), true
+		}
 		if !ok {
 			return "bad-op"
 		}
@@ -138,7 +167,11 @@ func (f *fileSUT) op(t []string) string {
 		if err != nil || it == nil {
 			return "err ev=" + ev + " | " + f.state()
 		}
-		if t[1] == "w" {
+		if t[1] == "fr" {
+			// a file-root: resource is the file as it is: no configured anchors merged, certRoot untouched
+			return "ok fileroot=" + rootLetters(it.RootCert) + " ev=" + ev + " | " + f.state()
+		}
+		if t[1] == "w" || t[1] == "fc" {
 			return "ok pair=" + f.pairVersion(it.PrivateKey, it.CertificateChain) + " ev=" + ev + " | " + f.state()
 		}
 		return "ok root=" + rootLetters(it.RootCert) + " ev=" + ev + " | " + f.state()
@@ -150,12 +183,21 @@ func (f *fileSUT) op(t []string) string {
 		if t[1] == "w" {
 			k, c := f.newPair()
 			f.wv = len(f.versions) - 1
-			must(file.AtomicWrite(cert, c, 0o644))
-			must(file.AtomicWrite(key, k, 0o644))
+			if f.kube {
+				f.publish(k, c)
+			} else {
+				must(file.AtomicWrite(cert, c, 0o644))
+				must(file.AtomicWrite(key, k, 0o644))
+			}
 		} else {
 			want = 'R'
 			f.rootLetter = 'A' + (f.rootLetter-'A'+1)%nRoots
-			must(file.AtomicWrite(root, []byte(rootByName(f.rootLetter).pem), 0o644))
+			if f.kube {
+				v := f.versions[f.wv]
+				f.publish(v[0], v[1])
+			} else {
+				must(file.AtomicWrite(root, []byte(rootByName(f.rootLetter).pem), 0o644))
+			}
 		}
 		// the watcher's callback: at least one for the written resource (how many inotify events one atomic
 		// replace produces is not the property), none for the other
@@ -172,13 +214,22 @@ func (f *fileSUT) op(t []string) string {
 		got += strings.ReplaceAll(f.takeEvents(), "-", "")
 		hit, other := false, false
 		for i := 0; i < len(got); i++ {
-			if got[i] == want || got[i] == want+32 {
+			switch {
+			case got[i] == want || got[i] == want+32:
 				hit = true
-			} else {
+			case got[i] == '?':
+				// the same file watched under its file-cert: / file-root: name: announced to that resource as well
+			default:
 				other = true
 			}
 		}
+		if f.kube {
+			// a publish replaces the whole volume: every watched resource may be announced
+			return fmt.Sprintf("cb=%s other=* | %s", wire.B(hit), f.state())
+		}
 		return fmt.Sprintf("cb=%s other=%s | %s", wire.B(hit), wire.B(other), f.state())
+	case "fstress":
+		return f.stress(t)
 	case "bundle":
 		if len(t) != 2 {
 			return "bad-op"
@@ -193,13 +244,121 @@ func (f *fileSUT) op(t []string) string {
 	return "bad-op"
 }
 
+// stress: `fstress <ms>` - file events CONCURRENT with GenerateSecret: readers request default / ROOTCA in a loop while a
+// writer replaces the pair (cert first, then key, as an external agent does), sometimes leaving a truncated
+// certificate on disk for a few milliseconds (the validate-and-retry path).  Every answer must be a key and a
+// certificate of the SAME written version; at the end the answer is the last version; the CA is never asked.
+func (f *fileSUT) stress(t []string) string {
+	if len(t) != 2 || f.kube {
+		return "bad-op"
+	}
+	ms, err := strconv.Atoi(t[1])
+	if err != nil || ms < 1 || ms > 60000 {
+		return "bad-op"
+	}
+	cert, key, _ := f.paths()
+	stop := make(chan struct{})
+	var wg sync.WaitGroup
+	var mu sync.Mutex
+	violation := ""
+	fail := func(v string) {
+		mu.Lock()
+		if violation == "" {
+			violation = v
+		}
+		mu.Unlock()
+	}
+	var vmu sync.Mutex // f.versions is appended by the writer
+	for g := 0; g < 6; g++ {
+		g := g
+		wg.Add(1)
+		go func() {
+			defer wg.Done()
+			defer func() {
+				if e := recover(); e != nil {
+					fail(fmt.Sprintf("panic %v", e))
+				}
+			}()
+			for k := 0; ; k++ {
+				select {
+				case <-stop:
+					return
+				default:
+				}
+				if (g+k)%3 == 0 {
+					if it, err := f.sc.GenerateSecret(security.RootCertReqResourceName); err != nil || nonCARoot(it.RootCert) {
+						fail("root-answer " + fmt.Sprint(err))
+					}
+					continue
+				}
+				it, err := f.sc.GenerateSecret(security.WorkloadKeyCertResourceName)
+				if err != nil {
+					fail("gen-error " + err.Error())
+					return
+				}
+				vmu.Lock()
+				v := f.pairVersion(it.PrivateKey, it.CertificateChain)
+				vmu.Unlock()
+				if v == "x" || v == "?" {
+					fail("pair-mismatch served key and certificate of different file versions " + v)
+				}
+			}
+		}()
+	}
+	deadline := time.Now().Add(time.Duration(ms) * time.Millisecond)
+	for k := 0; time.Now().Before(deadline); k++ {
+		vmu.Lock()
+		kp, cp := f.newPair()
+		f.wv = len(f.versions) - 1
+		vmu.Unlock()
+		if k%3 == 2 {
+			// a writer caught in the middle: a truncated certificate is on disk for a few milliseconds (never an
+			// empty file: an empty or missing file makes the agent fall back to the CA, by design)
+			must(file.AtomicWrite(cert, cp[:len(cp)/2], 0o644))
+			time.Sleep(3 * time.Millisecond)
+			must(file.AtomicWrite(cert, cp, 0o644))
+		} else {
+			must(file.AtomicWrite(cert, cp, 0o644))
+		}
+		time.Sleep(time.Duration(200+300*(k%3)) * time.Microsecond)
+		must(file.AtomicWrite(key, kp, 0o644))
+		time.Sleep(4 * time.Millisecond)
+	}
+	close(stop)
+	wg.Wait()
+	f.takeEvents()
+	if violation != "" {
+		return "violated fstress-" + violation
+	}
+	it, err := f.sc.GenerateSecret(security.WorkloadKeyCertResourceName)
+	if err != nil || f.pairVersion(it.PrivateKey, it.CertificateChain) != strconv.Itoa(f.wv) {
+		return "violated fstress-stale final answer is not the last version"
+	}
+	f.takeEvents()
+	if f.ca.calls() != 0 {
+		return "violated fstress-called-ca"
+	}
+	return "ok fstress"
+}
+
 func genFile(seed uint64, n int, path string) {
 	out := wire.Create(path)
 	defer out.Close()
 	root := wire.NewRng(seed*0x9e3779b9 + 7117)
 	for i := 0; i < n; i++ {
 		r := root.Fork()
-		out.Line("case", strconv.Itoa(i), "file")
+		if i == 0 {
+			// file replacement concurrent with GenerateSecret (incl. half-written certificates)
+			out.Line("case", "0", "file")
+			out.Line("fgen", "w")
+			out.Line("fstress", "500") // last op of its case: how many versions were written is not deterministic
+			continue
+		}
+		if r.Chance(1, 3) {
+			out.Line("case", strconv.Itoa(i), "file", "kube") // kubelet-style ..data symlink volume
+		} else {
+			out.Line("case", strconv.Itoa(i), "file")
+		}
 		armedW, armedR := false, false // a GenerateSecret registered the watch since the last write
 		cfg := "-"
 		nops := 3 + r.Intn(8)
@@ -217,6 +376,8 @@ func genFile(seed uint64, n int, path string) {
 			case x < 9 && armedR:
 				out.Line("fwrite", "r")
 				armedR = false
+			case x == 9 && r.Chance(1, 2):
+				out.Line("fgen", wire.Pick(r, []string{"fc", "fr"})) // the same files under their file-cert: / file-root: names
 			case x == 9:
 				b := randLetters(r, 0, 2)
 				if b != cfg {
@@ -272,7 +433,7 @@ func execFile(in, outp string) {
 					}
 				}()
 				if f == nil {
-					f = newFileSUT()
+					f = newFileSUT(len(t) == 4 && t[0] == "case" && t[3] == "kube")
 				}
 				if t[0] == "case" {
 					outl = append(outl, "ok")
@@ -321,7 +482,7 @@ func oracleFile(in, outp string) {
 					}
 				}()
 				if f == nil {
-					f = newFileSUT()
+					f = newFileSUT(len(t) == 4 && t[0] == "case" && t[3] == "kube")
 				}
 				if t[0] == "case" {
 					return
@@ -353,8 +514,13 @@ func oracleFile(in, outp string) {
 					if !strings.HasPrefix(r, "ok ") || !containsAll(got, want) || strings.Trim(got, want) != "" {
 						fail("root-missing", t, r)
 					}
+				case t[0] == "fstress":
+					if strings.HasPrefix(r, "violated ") {
+						fl := strings.Fields(r)
+						fail(fl[1], t, strings.Join(fl[2:], " "))
+					}
 				case t[0] == "fwrite" && len(t) == 2:
-					if armed[t[1]] && !strings.HasPrefix(r, "cb=1 other=0") {
+					if armed[t[1]] && !strings.HasPrefix(r, "cb=1 other=0") && !strings.HasPrefix(r, "cb=1 other=*") {
 						fail("file-change-unannounced", t, r)
 					}
 					armed[t[1]] = false
